@@ -43,6 +43,39 @@ static void run_case(CaseCtx& c)
     cfg.threads = rng.pick({1, 1, 4});
     cfg.with_exact = true;
     bool cli_route = rng.coin(0.5);
+    // recorded witness of the open finding F16 (fixed configuration): reproduces it on every run
+    const bool witness_f16 = c.arg("witness", "") == "F16";
+    if (witness_f16) {
+        cfg = SolverConfig();
+        cfg.ps.Rmax = 1.3;
+        cfg.ps.geom = G_SHAFRANOV;
+        cfg.ps.p1 = 0.3;
+        cfg.ps.p2 = 0.2;
+        cfg.ps.prob = P_POLAR_R6;
+        cfg.ps.prof = F_ZONI;
+        cfg.ps.alpha_jump = documented_alpha_jump(F_ZONI, 1.3);
+        cfg.R0 = 0.1;
+        cfg.nr_exp = 4;
+        cfg.ntheta_exp = -1;
+        cfg.divideBy2 = 2; // 65 x 128
+        cfg.aniso = 0;
+        cfg.dirbc = true;
+        cfg.strategy = 1;
+        cfg.cache_prof = cfg.cache_geo = true;
+        cfg.extrapolation = 0;
+        cfg.cycle = 0;
+        cfg.fmg = false;
+        cfg.pre = cfg.post = 1;
+        cfg.maxLevels = -1;
+        cfg.norm = 0;
+        cfg.maxIterations = 150;
+        cfg.abs_tol = 1e-8;
+        cfg.rel_tol = 1e-8;
+        cfg.threads = 1;
+        cfg.with_exact = true;
+        cli_route = false;
+        c.obs.params.str("witness", "F16");
+    }
     cfg.describe(c.obs.params);
     c.obs.params.str("route", cli_route ? "cli" : "api");
     c.announce(std::string("ex") + std::to_string(cfg.extrapolation) + "/cycle" + std::to_string(cfg.cycle) + (cfg.fmg ? "/fmg" : "/nofmg"));
@@ -50,7 +83,7 @@ static void run_case(CaseCtx& c)
     // history: in 20% of the pointer-route cases the judged solve is the second one on the object; the first one ran with
     // other solve-time options (norm type, cycle, FMG cycle/iterations, loose tolerances) -- the stop test and the
     // reported factor of a solve refer to this solve only
-    const bool after_earlier_solve = !cli_route && rng.coin(0.2);
+    const bool after_earlier_solve = !cli_route && rng.coin(0.2) && !witness_f16;
     SolverConfig first = cfg;
     if (after_earlier_solve) {
         first.norm = (cfg.norm + rng.range(1, 2)) % 3;
@@ -99,8 +132,19 @@ static void run_case(CaseCtx& c)
     bool achievable = true;
     ld floor_x1000 = 0;
     {
+        // magnitude of the entries from the manufactured solution, not from the returned iterate: a diverged iterate would
+        // inflate its own floor and hide the divergence
+        Vector<double> uscale(n);
+        {
+            auto ex = make_exact(cfg.ps);
+            for (int i = 0; i < grid.nr(); i++)
+                for (int j = 0; j < grid.ntheta(); j++) {
+                    double r = grid.radius(i), t = grid.theta(j);
+                    uscale[grid.index(i, j)] = ex->exact_solution(r, t, std::sin(t), std::cos(t));
+                }
+        }
         std::vector<ld> Au, absAu;
-        ir.A->apply(u, Au, &absAu);
+        ir.A->apply(uscale, Au, &absAu);
         std::vector<ld> sc(absAu.size());
         for (size_t k = 0; k < sc.size(); k++)
             sc[k] = absAu[k] + fabsl(ir.f[k]);
